@@ -954,8 +954,8 @@ theorem accepted_proof_has_tree_depth [DecidableEq H] (cfg : Cfg) (f : HashFns H
 
 /-- `processor_safe_over_all_runs` — `processor_total`, `processor_task_counters` and `processor_invariant`
 lifted from one step to EVERY run of the code in /repo: from the empty processor, over any list of events
-— units of any kind from anybody, naming any publisher, and time-outs of any message key, in any order,
-with any task bounds — no unit's outcome is a panic, and at the end the counters count the live
+— units of any kind from anybody, naming any publisher, time-outs of any message key and expiries of any
+entry of the finalized cache, in any order, with any task bounds — no unit's outcome is a panic, and at the end the counters count the live
 subprocessors (`TInv`), every stored subprocessor is well-formed (`ProcInv`) and belongs to a publisher
 the scheduler routes (`SubsRoutable`). -/
 theorem processor_safe_over_all_runs [DecidableEq H] (b : Bounds) (f : HashFns H) (rs : RS) (sg : SigScheme H)
@@ -1159,10 +1159,12 @@ example : ∃ li pre bc e, sched3.shardIndexFor [2] = .ok li ∧
       [1] (by decide) (by decide) rfl
   exact ⟨li, pre, bc, e, h1, h2, h3⟩
 
-/-- A run over events (a unit, a time-out of its key, the unit again): no panic, counters consistent. -/
+/-- A run over events (a unit, the time-out of its key, the expiry of the cache entry, the unit again): no
+panic, counters consistent. -/
 example : (∀ o ∈ (tprocRunEv Bounds.real Cfg.current PCfg.current termFns repCode12 toySig sched4 TProc.empty
       [.unit (honestUnit Cfg.current termFns repCode12 toySig [7] [2] 5 [104, 105] 1 2 2) (sched4.sender [2] 2),
        .expire ⟨[7], [2], (treeOf Cfg.current termFns repCode12 [104, 105] 1 2).1, 5⟩,
+       .forget ⟨[7], [2], (treeOf Cfg.current termFns repCode12 [104, 105] 1 2).1, 5⟩,
        .unit (honestUnit Cfg.current termFns repCode12 toySig [7] [2] 5 [104, 105] 1 2 2) (sched4.sender [2] 2)]).2,
       o ≠ .panic) :=
   (processor_safe_over_all_runs Bounds.real termFns repCode12 toySig [1] [[3], [1], [2], [4]] sched4 rfl
